@@ -183,8 +183,11 @@ def analyse_call(call, v, counters):
                 v("weight-box-differs-from-ofm-channel-range", "weights %s for OFM channels %s" % (cmd.weight_box, cmd.ofm_box))
         # ---- receptive field of this stripe (rows), from decoded registers
         bt = ps.npu_block_type
-        modelled = bt in (NpuBlockType.ConvolutionMxN, NpuBlockType.ConvolutionDepthWise, NpuBlockType.Pooling) and F.upscale == 0 and op.type not in (
-            Op.Conv2DBackpropInputSwitchedBias,) and "padding" in op.attrs and len(set(F.ifm.bases)) > 1 or (bt in (NpuBlockType.ConvolutionMxN, NpuBlockType.ConvolutionDepthWise, NpuBlockType.Pooling) and F.upscale == 0 and "padding" in op.attrs and F.ifm.bases[1] == 0)
+        conv_like = bt in (NpuBlockType.ConvolutionMxN, NpuBlockType.ConvolutionDepthWise, NpuBlockType.Pooling)
+        # tile-aliased IFMs (the half-pixel bilinear lowering reads a replicated border through four tiles at one base) are outside the geometric model
+        plain_tiles = len(set(F.ifm.bases)) > 1 or F.ifm.bases[1] == 0
+        modelled = conv_like and F.upscale in (0, 1) and op.type != Op.Conv2DBackpropInputSwitchedBias and "padding" in op.attrs and plain_tiles
+        up = 2 if F.upscale == 1 else 1
         pad, (kdh, kdw), (ih, iw) = op_padding(op) if "padding" in op.attrs else (None, (1, 1), (0, 0))
         if not modelled or pad is None or op.type == Op.Conv2DBackpropInputSwitchedBias:
             counters["unmodelled_stripes"] += 1
@@ -196,8 +199,16 @@ def analyse_call(call, v, counters):
             ro = op.read_offsets[0].height if op.read_offsets[0] is not None else 0
             rox = op.read_offsets[0].width if op.read_offsets[0] is not None else 0
             k = op.kernel
-            st, en, wpt, wpb = receptive(y0, y1, k.stride.y, kdh, pad[0], ih)
-            sx, ex, wpl, wpr = receptive(x0, x1, k.stride.x, kdw, pad[1], iw)
+            st, en, wpt, wpb = receptive(y0, y1, k.stride.y, kdh, pad[0], ih * up)
+            sx, ex, wpl, wpr = receptive(x0, x1, k.stride.x, kdw, pad[1], iw * up)
+            if up > 1:
+                # nearest-neighbour upscaling: the kernel runs over the IFM replicated 2x; the stripe needs the IFM rows that the replicated rows come from,
+                # and can only start on the replication grid
+                counters["upscaled_receptive_checks"] = counters.get("upscaled_receptive_checks", 0) + 1
+                if en > st and st % up:
+                    v("stripe:upscaled-ifm-start-off-the-replication-grid", "stripe rows [%d,%d) of %s needs replicated rows [%d,%d): starts in the middle of a replicated IFM row" % (y0, y1, ps.name, st, en))
+                st, en = st // up, -(-en // up)
+                sx, ex = sx // up, -(-ex // up)
             counters["receptive_checks"] += 1
             got_rows = (int(cmd.ifm_box.start_coord[-3]) - ro, int(cmd.ifm_box.end_coord[-3]) - ro)
             desc = "stripe rows [%d,%d) of %s (k %dx%d dil-size, stride %d/%d, pad %s, ifm %dx%d, read offset rows %d)" % (y0, y1, ps.name, kdh, kdw, k.stride.y, k.stride.x, pad, ih, iw, ro)
@@ -285,7 +296,7 @@ def run_pipeline(case):
     keys = []
     log = vc.StreamLog().install()
     for t in range(case["n"]):
-        fam = ["stripe-stress", "stripe-stress", "exact-chain", "buffer-stress", "exact-dag", "approx-tail", "exact-chain-big", "alias-stress"][int(rng.integers(0, 8))]
+        fam = ["stripe-stress", "stripe-stress", "exact-chain", "buffer-stress", "exact-dag", "approx-tail", "exact-chain-big", "alias-stress", "stripe-resize", "stripe-resize"][int(rng.integers(0, 10))]
         net = netgen.make(fam, case["seed"] * 50 + t)
         cfg = cfggen.rand_cfg(rng)
         if rng.integers(0, 2):
@@ -324,7 +335,7 @@ def summarise(agg, tier):
     q = tier == "quick"
     return {
         "thresholds": {"direct_cases": 6000 if q else 30000, "multi_stripe_sets": 1200 if q else 8000, "stripes": 4000 if q else 100000, "multi_stripe_passes": 100 if q else 5000,
-                       "multi_slice_passes": 30 if q else 1500, "receptive_checks": 2000 if q else 50000, "rolling_rows_checked": 200 if q else 10000},
+                       "multi_slice_passes": 30 if q else 1500, "receptive_checks": 2000 if q else 50000, "rolling_rows_checked": 200 if q else 10000, "upscaled_receptive_checks": 150 if q else 4000},
         "rule": "direct: OFM height 1..12 x every stripe height x kernel 1..8 x stride 1..3 x dilation 1..2 x SAME/VALID/explicit pads x write offsets {0,3} x read offsets {0,2} "
                 "(quick: reduced heights/steps); pipeline: every NpuStripe of compilations of striping-prone families under Size strategy / small caches. distinct = shards + "
                 "(family, accelerator, #passes) classes",
